@@ -295,4 +295,144 @@ theorem colourOf_indexed (pal : List Rgba) (d k : Nat) :
   rfl
 
 
+/-! ### palette lookups -/
+
+theorem chunks_flatMap' {α} (f : α → Bytes) (m : Nat) (hm : 0 < m) (xs : List α)
+    (h : ∀ x ∈ xs, (f x).length = m) : chunksExact m (xs.flatMap f) = xs.map f := by
+  rw [List.flatMap_def]
+  apply chunksExact_flatten m hm
+  intro q hq
+  obtain ⟨x, hx, rfl⟩ := List.mem_map.mp hq
+  exact h x hx
+
+def blackEntry : Rgba := ⟨0, 0, 0, 255⟩
+
+theorem getD_mem_or (p : List Rgba) (k : Nat) : p.getD k blackEntry ∈ p ∨ p.getD k blackEntry = blackEntry := by
+  rw [List.getD_eq_getElem?_getD]
+  cases h : p[k]? with
+  | none => right; rfl
+  | some e => left; exact List.mem_of_getElem? h
+
+theorem opaque_entries (p0 : List Rgba) (ha : (p0.any fun c => decide (c.a ≠ 255)) = false) (k : Nat) :
+    (p0.getD k blackEntry).a = 255 := by
+  cases getD_mem_or p0 k with
+  | inl hm => simpa using List.any_eq_false.mp ha _ hm
+  | inr he => rw [he]; rfl
+
+theorem gray_entries (p0 : List Rgba) (ag : Bool)
+    (hg : (ag && p0.all fun c => decide (c.r = c.g ∧ c.g = c.b)) = true) (k : Nat) :
+    (p0.getD k blackEntry).r = (p0.getD k blackEntry).g ∧ (p0.getD k blackEntry).g = (p0.getD k blackEntry).b := by
+  cases getD_mem_or p0 k with
+  | inl hm =>
+    have := (Bool.and_eq_true _ _).mp hg
+    simpa using List.all_eq_true.mp this.2 _ hm
+  | inr he => rw [he]; exact ⟨rfl, rfl⟩
+
+
+/-! ### the condensing loop of `reduced_palette` -/
+
+/-- invariant of the condensing loop (no alpha optimisation): every processed index is mapped to a
+    slot of the condensed palette holding its colour; slots are below 256; if nothing "changed" every
+    index is mapped to itself -/
+def PalInv (palette : List Rgba) (st : List Rgba × List (Nat × Nat) × Bool) (done : List Nat) : Prop :=
+  ∀ k ∈ done, ∃ idx, st.2.1.lookup k = some idx ∧ st.1[idx]? = some (palette.getD k blackEntry) ∧
+    (st.2.2 = false → idx = k)
+
+theorem palStep_inv (palette : List Rgba) (st : List Rgba × List (Nat × Nat) × Bool) (done : List Nat)
+    (k : Nat) (hinv : PalInv palette st done) (hlen : st.1.length < 256) :
+    PalInv palette (palStep palette false st k) (k :: done) ∧
+    (palStep palette false st k).1.length ≤ st.1.length + 1 := by
+  unfold palStep
+  simp only [Bool.false_and, Bool.false_eq_true, if_false]
+  cases hi : st.1.idxOf? (palette.getD k ⟨0, 0, 0, 255⟩) with
+  | some j =>
+    have hget := idxOf?_some _ _ _ hi
+    have hj : j < st.1.length := by
+      cases Nat.lt_or_ge j st.1.length with
+      | inl hh => exact hh
+      | inr hh => rw [List.getElem?_eq_none hh] at hget; cases hget
+    refine ⟨?_, by simp⟩
+    intro k' hk'
+    by_cases hkk : k' = k
+    · subst hkk
+      refine ⟨j, by simp [List.lookup], hget, ?_⟩
+      intro hch
+      simp only [Bool.or_eq_false_iff, decide_eq_false_iff_not, Decidable.not_not] at hch
+      have : j % 256 = j := Nat.mod_eq_of_lt (by omega)
+      omega
+    · have hk'' : k' ∈ done := by
+        cases List.mem_cons.mp hk' with
+        | inl h => exact absurd h hkk
+        | inr h => exact h
+      obtain ⟨idx, h1, h2, h3⟩ := hinv k' hk''
+      refine ⟨idx, ?_, h2, ?_⟩
+      · simp only [List.lookup]
+        have : (k' == k) = false := by simpa using hkk
+        rw [this]; exact h1
+      · intro hch
+        simp only [Bool.or_eq_false_iff] at hch
+        exact h3 hch.1
+  | none =>
+    refine ⟨?_, by simp⟩
+    intro k' hk'
+    by_cases hkk : k' = k
+    · subst hkk
+      refine ⟨st.1.length, by simp [List.lookup], by simp [blackEntry], ?_⟩
+      intro hch
+      simp only [Bool.or_eq_false_iff, decide_eq_false_iff_not, Decidable.not_not] at hch
+      have : st.1.length % 256 = st.1.length := Nat.mod_eq_of_lt hlen
+      omega
+    · have hk'' : k' ∈ done := by
+        cases List.mem_cons.mp hk' with
+        | inl h => exact absurd h hkk
+        | inr h => exact h
+      obtain ⟨idx, h1, h2, h3⟩ := hinv k' hk''
+      have hidx : idx < st.1.length := by
+        cases Nat.lt_or_ge idx st.1.length with
+        | inl hh => exact hh
+        | inr hh => rw [List.getElem?_eq_none hh] at h2; cases h2
+      refine ⟨idx, ?_, ?_, ?_⟩
+      · simp only [List.lookup]
+        have : (k' == k) = false := by simpa using hkk
+        rw [this]; exact h1
+      · rw [List.getElem?_append_left hidx]; exact h2
+      · intro hch
+        simp only [Bool.or_eq_false_iff] at hch
+        exact h3 hch.1
+
+theorem palFold_inv (palette : List Rgba) : ∀ (rest : List Nat) (st : List Rgba × List (Nat × Nat) × Bool)
+    (done : List Nat), PalInv palette st done → st.1.length + rest.length ≤ 256 →
+    PalInv palette (rest.foldl (palStep palette false) st) (rest.reverse ++ done) ∧
+    (rest.foldl (palStep palette false) st).1.length ≤ 256 := by
+  intro rest
+  induction rest with
+  | nil => intro st done h hl; exact ⟨by simpa using h, by simpa using hl⟩
+  | cons k rest ih =>
+    intro st done h hl
+    simp only [List.length_cons] at hl
+    obtain ⟨h1, h2⟩ := palStep_inv palette st done k h (by omega)
+    have := ih (palStep palette false st k) (k :: done) h1 (by omega)
+    simpa using this
+
+theorem lookup_getD_ofNat (l : List (Nat × Nat)) (k idx : Nat) (h : l.lookup k = some idx) (hi : idx < 256) :
+    (UInt8.ofNat ((l.lookup k).getD 0)).toNat = idx := by
+  rw [h]; exact ofNat_toNat_lt idx hi
+
+theorem getD_of_getElem? {α} (l : List α) (k : Nat) (d x : α) (h : l[k]? = some x) : l.getD k d = x := by
+  rw [List.getD_eq_getElem?_getD, h]; rfl
+
+theorem lt_of_getElem?_some {α} (l : List α) (k : Nat) (x : α) (h : l[k]? = some x) : k < l.length := by
+  cases Nat.lt_or_ge k l.length with
+  | inl hh => exact hh
+  | inr hh => rw [List.getElem?_eq_none hh] at h; cases h
+
+theorem used_mem (data : Bytes) (b : UInt8) (hb : b ∈ data) :
+    b.toNat ∈ ((List.range 256).filter fun k => data.contains (UInt8.ofNat k)) := by
+  rw [List.mem_filter]
+  refine ⟨List.mem_range.mpr b.toNat_lt, ?_⟩
+  have : UInt8.ofNat b.toNat = b := UInt8.ofNat_toNat
+  rw [this]
+  simpa using hb
+
+
 end OxiModel.Spec
